@@ -19,6 +19,9 @@ RULE = (
     "the call raises); calling the same entry twice returns equal answers. A discovery pass lists public get_/is_/to_/as_/search "
     "methods not classified in the table (reported in the evidence). Non-trivial = document holding a table with trailing empty "
     "or repeated cells, or notes/TOC; distinct by (document, program)."
+    ' Also: coordinate-parametrised table/row reads (inside, last, edge, beyond, negative), get_part with every spelling of'
+    ' the XML part names and for sub-documents, generated documents with empty / trailing-empty tables in frames, headings,'
+    ' cells and sections, surplus column declarations, notes without citation; programs biased to whole-document exports.'
 )
 ASSUMPTIONS = [
     "get_variable_decls / get_user_field_decls are documented to create their container and are excluded",
